@@ -267,6 +267,20 @@ pub fn run_cases<T: Case>(
                 Ok(())
             }
             Err(bad) => {
+                // while shrinking, only a candidate that fails *the same way* (same key) counts
+                // as failing: otherwise a violation could shrink into a different failure -- in
+                // particular into a case of a recorded finding, and be reported as known
+                let key_of = |b: &Bad| match b {
+                    Bad::Violation { key, .. } => key.clone(),
+                    Bad::Harness(_) => "<harness>".to_string(),
+                };
+                if frozen.get() {
+                    if let Some(first) = last_bad.borrow().as_ref() {
+                        if key_of(first) != key_of(&bad) {
+                            return Ok(());
+                        }
+                    }
+                }
                 frozen.set(true);
                 let msg = format!("{:?}", bad);
                 *last_bad.borrow_mut() = Some(bad);
